@@ -210,7 +210,8 @@ pub fn gen_stream(info: &MethodInfo, p: &Params, r: &mut Rng, len: usize, fault_
 				cfg.integer = false;
 			}
 			if is_selection(info.name) && !fault_free && rv.chance(0.6) {
-				return order_pattern(&mut rv, len, window, fc);
+				// subnormal magnitudes only where every operation of the method is a selection (exact for any value)
+				return order_pattern(&mut rv, len, window, fc, info.name != "MedianAbsDev");
 			}
 			feed::to_in_vals(&feed::values(&mut rv, len, &cfg, fc))
 		}
@@ -267,12 +268,17 @@ pub fn is_selection(name: &str) -> bool {
 
 /// streams built over order patterns: small alphabets (with both zeros), saw-teeth whose period is n-1, n, n+1,
 /// monotone runs, equal extrema entering as one leaves
-pub fn order_pattern(r: &mut Rng, len: usize, n: usize, fc: &mut FaultCount) -> Vec<In> {
+pub fn order_pattern(r: &mut Rng, len: usize, n: usize, fc: &mut FaultCount, subnormal_ok: bool) -> Vec<In> {
 	let mut out: Vec<f64> = Vec::with_capacity(len);
 	let bump = |fc: &mut FaultCount, k: &str| {
 		*fc.entry(k.to_string()).or_insert(0) += 1;
 	};
-	let scale = 10f64.powi(r.range(0, 6) as i32 - 3);
+	let mut scale = 10f64.powi(r.range(0, 6) as i32 - 3);
+	if subnormal_ok && r.chance(0.08) {
+		// the smallest positive ValueType: every pattern value is a small multiple of it (halving such a value rounds)
+		scale = yata::core::ValueType::from_bits(1) as f64;
+		bump(fc, "feed:subnormal_magnitudes");
+	}
 	while out.len() < len {
 		let seg = (1 + r.usize_below(3 * n + 10)).min(len - out.len());
 		match r.below(7) {
